@@ -7,6 +7,8 @@ From TS Require Import Spec.Serde Spec.TargetOsRule Spec.C03Spec.
 From TS Require Proofs.FrontItems Proofs.C03 Proofs.C03_TS Proofs.C03_Kotlin Proofs.C03_Swift Proofs.C03_Scala Proofs.C03_Go
                 Proofs.C03_Python Proofs.C03_Witness Proofs.C03Src Proofs.C03E2E Proofs.C03_All.
 Import ListNotations.
+From TS Require Import Model.MultiFile.
+From TS Require Proofs.C12Multi Proofs.C12MultiTS Proofs.C12MultiSwift Proofs.C12MultiGo Proofs.MultiSameItems.
 
 (* the struct / enum / type / const item handed to the matching parse_* function *)
 Definition parse_leaf (uc : unicode) (tstr : str -> option ty) (T : list str) (it : item) : outcome ritem :=
@@ -273,3 +275,56 @@ Theorem C03_end_to_end_Python : forall (uc : unicode), unicode_ok uc -> forall (
 Proof. exact Proofs.C03_All.e2e_py. Qed.
 Print Assumptions C03_end_to_end_Python.
 
+(* =============================================================================================
+   FOLDER (multi-file) MODE.  The declarations ds of a crate's folder-mode file, generated from ANY state the earlier
+   crates of the run left (Proofs.C12Multi*.<l>_multi_decls; Kotlin, Scala: kt_decls / sc_decls), are the declaration
+   list of the single-file observation <l>_file_decls of that crate (Props/C01.v C01_multi_file_decls_<l>) - next to
+   Swift's trailing CodableVoid helper and Python's header helper entries, which are not item declarations - and that
+   observation defines exactly one definition per parsed item: the conclusion of C03_back_<L>, no hypothesis about
+   the state. *)
+Theorem C03_multi_back_TypeScript :
+  forall uc cfg st pd ds st',
+  Proofs.C12MultiTS.ts_multi_decls uc cfg st pd = Ok (ds, st') ->
+  exists fd, ts_file_decls uc cfg pd = Ok fd /\ fd_decls fd = map ts_obs ds /\ good_C03_file TypeScript pd fd = true.
+Proof. exact Proofs.MultiSameItems.c03_multi_back_ts. Qed.
+Print Assumptions C03_multi_back_TypeScript.
+
+Theorem C03_multi_back_Kotlin :
+  forall uc cfg c im pd text,
+  kt_generate_multi uc cfg c im pd = Ok text -> dom_C03_file pd = true ->
+  exists ds fd, kt_decls uc cfg pd = Ok ds /\ kt_file_decls uc cfg pd = Ok fd /\ fd_decls fd = map kt_obs ds /\
+                good_C03_file Kotlin pd fd = true.
+Proof. exact Proofs.MultiSameItems.c03_multi_back_kt. Qed.
+Print Assumptions C03_multi_back_Kotlin.
+
+Theorem C03_multi_back_Swift :
+  forall uc cfg st pd ds st',
+  Proofs.C12MultiSwift.sw_multi_decls uc cfg st pd = Ok (ds, st') -> dom_C03_file pd = true ->
+  exists fd st0, sw_file_decls uc cfg pd = Ok fd /\
+                 fd_decls fd = flat_map sw_obs ds ++ flat_map sw_obs (sw_trailing_decls cfg st0) /\
+                 good_C03_file Swift pd fd = true.
+Proof. exact Proofs.MultiSameItems.c03_multi_back_sw. Qed.
+Print Assumptions C03_multi_back_Swift.
+
+Theorem C03_multi_back_Scala :
+  forall uc cfg pd text,
+  sc_generate uc cfg pd = Ok text -> dom_C03_file pd = true -> known_C03_file uc Scala pd = None ->
+  exists objs pkgs fd, sc_decls uc cfg pd = Ok (objs, pkgs) /\ sc_file_decls uc cfg pd = Ok fd /\
+                       fd_decls fd = flat_map sc_obs (objs ++ pkgs) /\ good_C03_file Scala pd fd = true.
+Proof. exact Proofs.MultiSameItems.c03_multi_back_sc. Qed.
+Print Assumptions C03_multi_back_Scala.
+
+Theorem C03_multi_back_Go :
+  forall uc cfg st pd ds st',
+  Proofs.C12MultiGo.go_multi_decls uc cfg st pd = Ok (ds, st') ->
+  exists fd, go_file_decls uc cfg pd = Ok fd /\ fd_decls fd = flat_map go_obs ds /\ good_C03_file Go pd fd = true.
+Proof. exact Proofs.MultiSameItems.c03_multi_back_go. Qed.
+Print Assumptions C03_multi_back_Go.
+
+Theorem C03_multi_back_Python :
+  forall uc cfg st pd ds st',
+  Proofs.C12Multi.py_multi_decls uc cfg st pd = Ok (ds, st') -> dom_C03_file pd = true -> known_C03_file uc Python pd = None ->
+  exists fd helpers, py_file_decls uc cfg pd = Ok fd /\
+                     fd_decls fd = map py_helper_decl helpers ++ flat_map py_obs ds /\ good_C03_file Python pd fd = true.
+Proof. exact Proofs.MultiSameItems.c03_multi_back_py. Qed.
+Print Assumptions C03_multi_back_Python.
